@@ -67,6 +67,22 @@ func c18Workloads() [][][]apix.Op {
 		}
 	}
 	w = append(w, c)
+	// 3..5: creeping growth - every transaction adds one new key, the high-water mark moves up a page at a time, so that
+	// single-page allocations at the end of the file land on EVERY page id in turn (in particular exactly on the last
+	// page of the current map, the case in which a remap and the size pre-check must agree); three phases shift which
+	// allocation of a transaction is the last one at the end of the file
+	for phase := 0; phase < 3; phase++ {
+		var d [][]apix.Op
+		first := []apix.Op{beginW, op("mkb", nil, "p", "")}
+		for k := 0; k < phase; k++ {
+			first = append(first, op("put", P("p"), fmt.Sprintf("shift%d", k), "M"))
+		}
+		d = append(d, append(first, commit))
+		for i := 0; i < 36; i++ {
+			d = append(d, []apix.Op{beginW, op("put", P("p"), fmt.Sprintf("c%02d", i), "M"), commit})
+		}
+		w = append(w, d)
+	}
 	return w
 }
 
@@ -306,7 +322,7 @@ func C18(tier string) int {
 	}
 	cov := map[string]interface{}{
 		"states": runs, "transitions": ops, "traces_validated_against_impl": ops, "evaluations": runs, "distinct_nontrivial": rejected + grown,
-		"rule":       fmt.Sprintf("exhaustive enumeration of configurations: MaxSize = every multiple of %d from four pages to 96 KiB plus 100000, 1 MiB, 1 MiB+777 and 3 MiB, x AllocSize {default, 4096, 3000} x InitialMmapSize {0, 64 KiB, 200000, 8 MiB} x page size {1024, 4096} x three workloads (fills crossing every growth step, 5-page values, many small overwriting transactions) x {limit from the start, limit imposed on a file that already holds 5 transactions}; after every operation the file length is compared with max(MaxSize, length at open); every transaction must commit or be refused with ErrMaxSizeReached leaving content, page accounting and file length unchanged; afterwards reopen and a small transaction; each run is compared op by op with the reference model", step),
+		"rule":       fmt.Sprintf("exhaustive enumeration of configurations: MaxSize = every multiple of %d from four pages to 96 KiB plus 100000, 1 MiB, 1 MiB+777 and 3 MiB, x AllocSize {default, 4096, 3000} x InitialMmapSize {0, 64 KiB, 200000, 8 MiB} x page size {1024, 4096} x six workloads (fills crossing every growth step, 5-page values, many small overwriting transactions, three phases of creeping growth that put single-page allocations on every page id in turn) x {limit from the start, limit imposed on a file that already holds 5 transactions}; after every operation the file length is compared with max(MaxSize, length at open); every transaction must commit or be refused with ErrMaxSizeReached leaving content, page accounting and file length unchanged; afterwards reopen and a small transaction; each run is compared op by op with the reference model", step),
 		"samples":    []string{"ps 1024, AllocSize 3000, InitialMmapSize 200000, MaxSize 34816, workload 0", "ps 4096, MaxSize 1049353 (1 MiB + 777), workload 1 on a file that already holds 5 transactions"},
 		"exhaustive": len(errs) == 0, "harness_errors": errs, "transactions_refused": rejected, "runs_in_which_the_file_grew": grown, "known_findings_seen": keys(known),
 	}
